@@ -330,3 +330,26 @@ func init() {
 		return e.ctx.Int(smt.I64, 1700000000+int64(e.clockTick))
 	}
 }
+
+func init() {
+	// CRC32 is an uninterpreted function of (previous crc, bytes): writer and reader compute the same thing
+	intrinsics["hash/crc32.ieeeInit"] = func(e *Exec, th *Thread, caller *Frame, site ssa.Instruction, args []Value) Value { return nil }
+	crcUpdate := func(e *Exec, th *Thread, caller *Frame, site ssa.Instruction, args []Value) Value {
+		crc := e.term(args[0])
+		bs := e.bytesOf(caller, site, args[2])
+		if len(bs) == 0 {
+			return crc
+		}
+		return e.ctx.UF("crc32_"+itoa(len(bs)), smt.U32, append([]*smt.Term{crc}, bs...)...)
+	}
+	intrinsics["hash/crc32.update"] = crcUpdate
+	intrinsics["hash/crc32.Update"] = crcUpdate
+	intrinsics["hash/crc32.ChecksumIEEE"] = func(e *Exec, th *Thread, caller *Frame, site ssa.Instruction, args []Value) Value {
+		bs := e.bytesOf(caller, site, args[0])
+		return e.ctx.UF("crc32_"+itoa(len(bs)), smt.U32, append([]*smt.Term{e.ctx.Const(smt.U32, 0)}, bs...)...)
+	}
+	intrinsics["hash/crc32.Checksum"] = func(e *Exec, th *Thread, caller *Frame, site ssa.Instruction, args []Value) Value {
+		bs := e.bytesOf(caller, site, args[0])
+		return e.ctx.UF("crc32_"+itoa(len(bs)), smt.U32, append([]*smt.Term{e.ctx.Const(smt.U32, 0)}, bs...)...)
+	}
+}
